@@ -840,9 +840,170 @@ def g_interference(s, P):
     return P
 
 
+# ---- round 2 templates (functions the reach audit found never executed)
+
+def g_optimisers(s, P):
+    """short runs of the scipy-based optimiser wrappers: bounds / fixed-parameter lists and p0 must survive, the point found must
+    not depend on what the objective's module-level counters and theta store saw before"""
+    f = {'$fn': 'model', 'id': 'two_epoch'}
+    ns = [s.choice([4, 6])]
+    pts = [8]
+    truth = P.add('extrap_call', f, [s.choice([0.5, 2.0]), s.choice([0.05, 0.1])], ns, pts)
+    data = P.add('S.scale', truth, s.choice([50.0, 200.0]))
+    if s.chance(0.3):
+        data = P.add('S.fold', data)
+    for _ in range(s.randint(1, 2)):
+        which = s.choice(['optimize_log', 'optimize_log', 'optimize', 'optimize_log_fmin', 'optimize_cons'])
+        kw = dict(maxiter=s.choice([1, 2]), multinom=s.chance(0.6), verbose=s.choice([0, 1]))
+        # the time parameter is always bounded above: an unbounded line search may ask for an integration over exp(large) time units
+        kw['lower_bound'] = [s.choice([0.1, None]), 0.01]
+        kw['upper_bound'] = [s.choice([10.0, None]), 1.0]
+        p0 = [s.choice([1.0, 1.5]), 0.07]
+        if s.chance(0.3):
+            kw['fixed_params'] = [None, 0.05]
+        if s.chance(0.3):
+            kw['full_output'] = True
+        if s.chance(0.2) and which != 'optimize_log_fmin':
+            kw['ll_scale'] = 10.0
+        P.add('OPT.scipy', which, {'$arr': p0} if s.chance(0.4) else p0, data, f, pts, **kw)
+        if s.chance(0.4):
+            P.add('object_func', [s.choice([0.5, 2.0]), 0.05], data, f, pts, multinom=s.chance(0.5), store_thetas=s.chance(0.5))
+        elif s.chance(0.3):
+            P.add('object_func_log', [0.0, -3.0], data, f, pts, multinom=s.chance(0.5))
+    return P
+
+
+def g_xchrom(s, P):
+    pts = s.choice(PTS)
+    xx = _grid(s, P, pts)
+    nu, gamma, h = s.choice([0.5, 1.0, 2.0]), s.choice([0, -2.0, 3.0]), s.choice([0.5, 0.2])
+    beta, alpha = s.choice([1, 3.0, 0.5]), s.choice([1, 2.0])
+    phi = P.add('phi_1D_X', xx, nu, s.choice([1.0, 2.0]), gamma, h, beta, alpha)
+    for _ in range(s.randint(1, 2)):
+        ikw = {}
+        if s.chance(0.15):
+            ikw['frozen'] = True
+        if s.chance(0.3):
+            ikw['theta0'] = s.choice([1.0, 2.0])
+        phi = P.add('Integration.one_pop_X', phi, xx, _T(s), s.choice([0.5, 1.0, 2.0]), gamma, h, beta, alpha, **ikw)
+    n = s.choice(NS)
+    fs = P.add('from_phi', phi, [n], T(xx))
+    if s.chance(0.5):
+        _spec_tail(s, P, fs, [n])
+    return P
+
+
+def g_persist(s, P):
+    """pickling, printing and file round trips of spectra (masks, folding, labels), then ordinary work on the copies"""
+    nd = s.choice([1, 1, 2, 2, 3])
+    shape = [s.choice([3, 4, 5]) for _ in range(nd)]
+    ids = [None, ['A', 'B', 'C'][:nd], ['pop one', 'p2', 'x'][:nd]]
+    fs = P.add('mk_spectrum', s.randint(0, 5), shape, s.choice([0.0, 0.2]), s.chance(0.3), s.choice(ids), 5.0, False, s.chance(0.8))
+    for _ in range(s.randint(2, 4)):
+        r = s.random()
+        if r < 0.4:
+            c = P.add('S.pickle_roundtrip', fs)
+        elif r < 0.55:
+            P.add(s.choice(['S.repr', 'S.str']), fs)
+            continue
+        elif r < 0.8:
+            c = P.add('S.file_roundtrip', fs, s.choice([16, 17, 20]), s.chance(0.8))
+        else:
+            c = P.add('S.copy', fs)
+        x = s.random()
+        if x < 0.3:
+            _inplace_on(s, P, c)
+            P.add('S.sum', fs)
+        elif x < 0.6:
+            P.add('S.add', fs, c)
+        elif x < 0.8:
+            P.add('S.S', c)
+    return P
+
+
+def g_vcf(s, P):
+    """the VCF parser on a private excerpt of the bundled file: dictionaries, spectra, chunks and subsampled bootstraps"""
+    nrec, skip = s.choice([30, 60]), s.choice([0, 0, 200])
+    pops = ['pop1', 'pop2']
+    if s.chance(0.4):
+        sub = {'pop1': s.choice([2, 3]), 'pop2': s.choice([3, 4])}
+        dd = P.add('vcf_data_dict', nrec, skip, sub, s.randint(0, 3), s.chance(0.5))
+        proj = [2 * sub['pop1'], 2 * sub['pop2']]
+    else:
+        dd = P.add('vcf_data_dict', nrec, skip, None, None, s.chance(0.4), s.chance(0.2))
+        proj = [s.choice([2, 4]), s.choice([2, 4])]
+    for _ in range(s.randint(1, 3)):
+        r = s.random()
+        if r < 0.2:
+            P.add('dd_keys', dd)
+        elif r < 0.55:
+            fs = P.add('from_data_dict', dd, pops if s.chance(0.7) else pops[::-1], proj, True, s.chance(0.5))
+            if s.chance(0.4):
+                P.add('S.S', fs)
+        elif r < 0.7:
+            P.add('count_data_dict', dd, pops)
+        elif r < 0.85:
+            P.add('fragment_data_dict', dd, s.choice([5000, 20000]))
+        else:
+            P.add('bootstraps_from_dd', dd, s.choice([5000, 20000]), 2, pops, proj, s.chance(0.5))
+    if s.chance(0.25):
+        P.add('vcf_bootstraps', nrec, {'pop1': 2, 'pop2': 3}, 2, s.choice([5000, 20000]), pops)
+    return P
+
+
+def g_lowpass_sim(s, P):
+    """the simulation branch of the low-pass model; the simulator owns LowPass.rng and the global numpy RNG"""
+    covs = [[[0, 1, 2, 3, 4, 5], [0.05, 0.25, 0.3, 0.2, 0.15, 0.05]], [[1, 2, 3, 4, 6, 8], [0.1, 0.2, 0.3, 0.2, 0.1, 0.1]]]
+    for _ in range(s.randint(1, 3)):
+        r = s.random()
+        nseq = s.choice([4, 6])
+        nsub = s.choice([x for x in (2, 4) if x <= nseq])
+        F = s.choice([0, 0.3])
+        if r < 0.35:
+            P.add('LP.simulate_calling', [s.choice(covs)], [s.randint(1, nseq - 1)], [nseq], [nsub], s.choice([20, 40]), [F], s.randint(0, 3))
+        elif r < 0.75:
+            f = {'$fn': 'model', 'id': 'two_epoch'}
+            P.add('LP.lowpass_sim_call', f, [s.choice([0.5, 2.0]), 0.05], [nsub], [s.choice([10, 12])], [s.choice(covs)], [nseq],
+                  s.choice([None, [0.3]]), s.choice([20, 40]), s.choice([1e-2, 0.2, 0.0]), s.randint(0, 3))
+        else:
+            g = P.add('mk_genotypes', s.randint(0, 3), 12, nseq // 2 + 2)
+            P.add('LP.subsample_genotypes_seeded', g, nsub, s.randint(0, 3))
+    return P
+
+
+def g_misc2(s, P):
+    """log-extrapolation wrapper, three-population inbreeding sampler, negated likelihoods"""
+    r = s.random()
+    if r < 0.4:
+        mid = s.choice(['two_epoch_raw', 'growth_raw'])
+        f = {'$fn': 'model', 'id': mid}
+        pts_l = s.choice([[8, 10], [8, 10, 12], [6, 8, 10]])
+        ns = [s.choice(NS)]
+        fs = P.add('make_extrap_log_call', f, [s.choice([0.5, 2.0]), s.choice([0.02, 0.05])], ns, pts_l)
+        if s.chance(0.5):
+            _spec_tail(s, P, fs, ns)
+    elif r < 0.7:
+        xx = P.add('grid', s.choice([6, 8]))
+        phi = P.add('phi_1D', xx)
+        phi = P.add('phi_1D_to_2D', xx, phi)
+        phi = P.add('phi_2D_to_3D_split_1', xx, phi)
+        if s.chance(0.5):
+            phi = P.add('Integration.three_pops', phi, xx, 0.02, 1.0, 2.0, 0.5)
+        W = (lambda v: {'$arr': v}) if s.chance(0.4) else (lambda v: v)
+        pl = s.choice([2, 4])
+        P.add('from_phi_inbreeding', phi, [2, 2, pl], T(xx, xx, xx), W([s.choice([0.2, 0.6]), s.choice([0.1, 0.5]), 0.3]), [2, 2, pl])
+    else:
+        ns = [s.choice([3, 4])] * s.choice([1, 2])
+        m = P.add('mk_spectrum', s.randint(0, 5), [n + 1 for n in ns], 0.0, False)
+        d = P.add('mk_spectrum', s.randint(0, 5), [n + 1 for n in ns], s.choice([0.0, 0.2]), s.chance(0.3))
+        P.add(s.choice(['minus_ll', 'minus_ll_multinom', 'Inference.ll_dict']), m, d)
+    return P
+
+
 TEMPLATES = [
     (g_chain1d, 10), (g_regrid, 4), (g_chain2d, 12), (g_chain3d, 7), (g_chain4d, 6), (g_chain5d, 2), (g_spectrum, 10), (g_numerics, 7),
     (g_badcalls, 5), (g_lowpass, 4), (g_lowpass_model, 2), (g_lowpass_dd, 3), (g_optgrid, 2), (g_nlopt, 2), (g_library, 6), (g_datadict, 5), (g_opthelp, 4), (g_objective, 3), (g_inbreeding, 4), (g_extrap, 5), (g_demes, 6), (g_godambe, 10), (g_godambe_neg, 2), (g_godambe_real, 2),
+    (g_optimisers, 3), (g_xchrom, 3), (g_persist, 4), (g_vcf, 4), (g_lowpass_sim, 3), (g_misc2, 4),
 ]
 
 
@@ -886,7 +1047,7 @@ def gen_session(s, faults=True, table=TEMPLATES, max_ops=40):
     if faults:
         p = s.choice([0.0, 0.1, 0.3, 0.6])
         for cid, prog in clients.items():
-            if any(st['op'].startswith('G.') for st in prog):
+            if any(st['op'].startswith(('G.', 'OPT.')) for st in prog):
                 # finite-difference ops amplify the legitimate rounding difference of a re-ordered reduction by
                 # 1/eps^2 and by the conditioning of J: no tolerance is sound there, so programs containing Godambe
                 # calls get no layout faults (their layout independence is covered on well-conditioned cases in C19)
